@@ -32,7 +32,7 @@ func setup(ex *Exec) {
 		ex.liveness = true
 		ex.conc = &concState{}
 	}
-	if (ex.cfg.Profile == "C12" || ex.cfg.Profile == "C13" || ex.cfg.Profile == "C08") && ex.cfg.Readers > 0 {
+	if (ex.cfg.Profile == "C12" || ex.cfg.Profile == "C13" || ex.cfg.Profile == "C08" || ex.cfg.Profile == "C10") && ex.cfg.Readers > 0 {
 		ex.conc = &concState{}
 	}
 }
